@@ -200,6 +200,39 @@ func propC15(r *Run) {
 				evals++
 			}
 		}
+		// faults that stay: from operation k on, every operation of that kind fails the same way (a
+		// file system that has filled up or gone read-only, a work area on another device): retrying
+		// inside the call does not help, and what was there before the call is still there after it
+		for k := 0; k < sc.nops; k++ {
+			kk := sc.kinds[k]
+			if kk != "rename" && kk != "write" && kk != "sync" {
+				continue
+			}
+			for _, e := range errnosFor[kk] {
+				f := sc.pre.Clone()
+				k, e := k, e
+				fired := 0
+				f.Plan = func(seq int, kind, real string) *simfs.Fault {
+					if seq >= k && kind == kk {
+						if fired == 0 {
+							faultKind, faultReal = kind, real
+						}
+						fired++
+						return &simfs.Fault{Errno: e}
+					}
+					return nil
+				}
+				w.use(f)
+				err, _ := w.runOp(op)
+				afterRename = k > renameIdx
+				what := fmt.Sprintf("%s injected into op %d/%d (%s) and into every later %s (%d in all)", e, k, sc.nops, kk, kk, fired)
+				r.Count("fault:persistent-" + kk + "-" + e.Error())
+				r.Logf("inject %s -> err=%v", what, err)
+				judge(what, f, err)
+				w.confinement()
+				evals++
+			}
+		}
 		// read-only clause, first with the store being opened inside the measured window (what
 		// every CLI command, daemon start and reload does) on a directory that has no work area
 		{
